@@ -224,8 +224,9 @@ func (s *Set) Intersect(t Set) error {
 				continue // Not there yet.
 			}
 			if telem.min.greaterThan(selem.max) {
-				// No need to check further.
-				break
+				// No overlap. (A set written in set syntax need not list
+				// its spans in order, so the later ones are still looked at.)
+				continue
 			}
 			if telem.min.equal(selem.max) && (telem.minOpen || selem.maxOpen) {
 				continue // They touch, but the common point is excluded.
